@@ -1239,13 +1239,19 @@ fn sweep_cases() -> Vec<Vec<String>> {
         clause(&[format!("cast {} n", v)]);
     }
     // (i) LIKE: one pattern per feature of the translation and of the regex syntax
-    let subjects = ["", "a", "b", "ab", "abc", "a.c", "a\\b", "\\", "%", "_", "]", "[a]", "a-c", "^", "ac", "a\nb", "aab", "$"];
+    let subjects = [
+        "", "a", "b", "ab", "abc", "a.c", "a\\b", "\\", "%", "_", "]", "[a]", "a-c", "^", "ac", "a\nb", "aab", "$", "?", "+", "(", ")", ".",
+        "*", "-", "[", "c", "a?b", "a+b", "a(b", "a)b", "a$b", "a.b", "a*b", "a^b", "a-b", "a[b", "a]b", "a%b", "a_b", "acb",
+    ];
     for p in [
         "", "a", "abc", "%", "a%", "%a", "%a%", "a%c", "_", "__", "a_", "_a", "a_c", "%_", "_%", "a__", "%__", "a%_",
         "[a]", "[ab]", "[a-c]", "[^a]", "[^a-c]", "[]]", "[^]]", "[a-]", "[-a]", "[c-a]", "[a", "[", "[]", "[^]", "[^",
         "[.]", "[*]", "[%]", "[_]", "[\\]]", "[\\\\]", "[a\\]", "[a^]", "a[bc]d", "[a]_", "[a]%", "[ab]__",
         ".", "*", "?", "+", "(", ")", "$", "^", "-", "]", "a.c", "a$", "^a",
         "\\%", "\\_", "\\[", "\\]", "\\\\", "\\.", "\\*", "\\a", "\\-", "\\^", "\\\\%", "\\\\_", "a\\", "\\", "\\\\\\",
+        // every character of the alphabet escaped (each member and non-member of regex::escape's set)
+        "\\?", "\\+", "\\(", "\\)", "\\$", "\\b", "\\c", "a\\?b", "a\\+b", "a\\(b", "a\\)b", "a\\$b", "a\\.b", "a\\*b",
+        "a\\^b", "a\\-b", "a\\[b", "a\\]b", "a\\%b", "a\\_b", "a\\\\b", "a\\cb",
     ] {
         let mut c = vec!["reset".to_string(), format!("likere {}", show_str(p))];
         for s in subjects {
